@@ -14,7 +14,7 @@ func init() { registry["C17"] = propC17 }
 
 func propC17() *Property {
 	return &Property{
-		ID: "C17",
+		ID:          "C17",
 		Explanation: "Static guard and shape rules on package object. Decided: (R1) every conversion from a floating-point to an integer type in the module is dominated by a lower and an upper range test on the converted value (Go leaves out-of-range results implementation-defined) and, in GetNumber, by the integrality test; (R2) package object cannot panic: every type assertion is comma-ok, there is no indexing, slicing, map write or explicit panic; (R3) the non-error result of GetString is the result of ansi.Scrub and known non-empty, the empty case returns the 'absent' sentinel, and GetTime/GetURL/GetMediaType/GetMarkup obtain their text only through GetString; (R4) getPrimitive returns 'absent' (wrapping ErrKeyNotPresent) exactly on the missing-key/null edges, 'wrong type' on the failed-assertion edge and the asserted value itself on success; no other error wraps the 'absent' sentinel; no accessor returns a non-nil error together with a non-zero value; (R5) GetList returns the list itself or a one-element literal holding the value. Not decided: time.Parse, url.Parse, the media-type regexp, encoding/json's number decoding, and the exact numeric value preserved by the conversion (value semantics).",
 		Assumptions: []string{"encoding/json decodes numbers into float64, arrays into []any, objects into map[string]any"},
 		Rules: []Rule{
@@ -282,7 +282,7 @@ func c17R3(c *Ctx) {
 		if !ok {
 			continue
 		}
-		if u, ok := ret.Results[1].(*ssa.UnOp); ok && u.X == ssa.Value(notPresent) {
+		if u, ok := ret.Results[1].(*ssa.UnOp); ok && unwrapLoad(u.X) == ssa.Value(notPresent) {
 			for _, f := range factsOf(gs).At(b) {
 				if cmp, ok := f.Cmp(); ok && cmp.Op == token.EQL {
 					if s, isC := constString(cmp.Y); isC && s == "" {
